@@ -11,16 +11,18 @@ Lemma gen_example_timing :
 Proof. repeat split; reflexivity. Qed.
 
 (* which of the seven example schemas may follow which (rows: previous ceremony, columns: next ceremony), identifier rules only *)
-Theorem example_schema_table :
-  map (fun r => (fst r, map snd (snd r))) (table example_window Gen.Schemas.example_schemas) =
+Definition example_table : list (string * list bool) :=
   (*                 normal pre-pub rollover revoke publish+ rollover+ revoke+ *)
-  [ ("normal",      [true;  true;   false;   false; false;   false;    false]);
-    ("pre-publish", [false; false;  true;    false; true;    false;    false]);
-    ("rollover",    [false; false;  false;   true;  false;   true;     false]);
-    ("revoke",      [false; false;  false;   false; false;   false;    true ]);
-    ("publish+",    [false; false;  true;    false; true;    false;    false]);
-    ("rollover+",   [false; false;  false;   true;  false;   true;     false]);
-    ("revoke+",     [false; false;  false;   false; false;   false;    true ]) ].
+  [ ("normal",      [true;  true;   true;    false; true;    false;    false]);
+    ("pre-publish", [true;  true;   true;    true;  true;    true;     false]);
+    ("rollover",    [false; false;  true;    true;  true;    true;     true ]);
+    ("revoke",      [false; false;  false;   true;  false;   true;     true ]);
+    ("publish+",    [true;  true;   true;    true;  true;    true;     false]);
+    ("rollover+",   [false; false;  true;    true;  true;    true;     true ]);
+    ("revoke+",     [false; false;  false;   true;  false;   true;     true ]) ].
+
+Theorem example_schema_table :
+  map (fun r => (fst r, map snd (snd r))) (table example_window Gen.Schemas.example_schemas) = example_table.
 Proof. vm_compute. reflexivity. Qed.
 
 Theorem example_schemas_internally_retire_safe : forallb (fun p => stays_listed (snd p)) Gen.Schemas.example_schemas = true.
